@@ -80,6 +80,42 @@ class SchemaGen:
             return {"name": n2 + "." + base}, n2 + "." + base, n2
         return {"name": base, "namespace": ""}, base, ""
 
+    def confusable(self, ns):
+        """unions whose branches admit overlapping Python values (str vs array<string>, bytes vs fixed of several sizes vs
+        array<int>, int vs long, float vs double also in dict form, enum vs string, map vs record): which branch is written is
+        decided by the writer's first-conforming rule -- a validator that is too lax or too strict on one of them shows here"""
+        rng = self.rng
+
+        def fx(n):
+            at, full, _ = self.name_attrs("fixed", ns)
+            at.update(type="fixed", size=n)
+            self.defined.append((full, "fixed", ns))
+            return at
+
+        def en(syms):
+            at, full, _ = self.name_attrs("enum", ns)
+            at.update(type="enum", symbols=syms)
+            self.defined.append((full, "enum", ns))
+            return at
+        t = rng.choice(["str", "bytes", "ints", "floats", "enum", "mix"])
+        if t == "str":
+            u = [{"type": "array", "items": rng.choice(["string", ["string", "int"], "bytes"])}, "string", {"type": "map", "values": "string"}]
+        elif t == "bytes":
+            u = [fx(rng.choice([1, 2])), fx(rng.choice([3, 4])), "bytes", {"type": "array", "items": "int"}]
+        elif t == "ints":
+            u = ["int", rng.choice(["long", {"type": "long"}]), rng.choice(["double", {"type": "double", "logicalType": "zzz"}])]
+        elif t == "floats":
+            u = ["float", rng.choice(["double", {"type": "double"}, {"type": "double", "customAttr": 1}])]
+        elif t == "enum":
+            u = [en(["a", "b"]), "string", {"type": "array", "items": en(["c", "d"])}]
+        else:
+            u = ["boolean", "int", "string", {"type": "array", "items": "string"}, "bytes", fx(2)]
+        if rng.random() < 0.5:
+            rng.shuffle(u)
+        if rng.random() < 0.4:
+            u.insert(rng.randrange(len(u) + 1), "null")
+        return u[:rng.choice([2, 3, 4, 5])] if len(u) > 2 and rng.random() < 0.3 else u
+
     def family(self, depth, ns):
         """A record holding 2-3 records whose field lists extend one another (every datum of a later member also conforms
         to the earlier ones) and unions that name them BY REFERENCE in random order: the writer's most-fields rule decides."""
@@ -140,6 +176,8 @@ class SchemaGen:
             kinds += ["ref", "ref"]
         if depth < self.max_depth - 1:
             kinds += ["family"]
+        if allow_union and depth < self.max_depth:
+            kinds += ["confusable"]
         if depth >= self.max_depth:
             kinds = ["prim"] * 4 + ["fixed", "enum"] + (["ref"] if self.defined else [])
         k = rng.choice(kinds)
@@ -162,6 +200,8 @@ class SchemaGen:
             return rng.choice(PRIMS)
         if k == "family":
             return self.family(depth, ns)
+        if k == "confusable":
+            return self.confusable(ns)
         if k == "fixed":
             at, full, _ = self.name_attrs("fixed", ns)
             at.update(type="fixed", size=rng.choice([0, 1, 2, 3, 4, 8, 16, 20]))
